@@ -17,9 +17,15 @@ def make_dir(bse, rng, tmp, nbases, must=()):
     names = list(must) + rng.sample(sorted(md), nbases)
     # whole alias groups, so that the sampled index is closed
     keys = []
+    from basis_set_exchange import misc as _misc
     for k in names:
         if k in md and k not in keys:
             keys.append(k)
+            # the other names of the same basis come along: two index entries that share their table files
+            for on in md[k]['other_names']:
+                ok_ = _misc.transform_basis_name(on)
+                if ok_ in md and ok_ not in keys:
+                    keys.append(ok_)
     d = os.path.join(tmp, 'bd%d' % rng.randrange(10 ** 9))
     os.makedirs(d)
     idx = {k: md[k] for k in sorted(keys)}
@@ -63,6 +69,8 @@ def work(item):
     arch = os.path.join(tmp, 'b_%s_%s_%d.%s' % (fmt, reffmt, os.getpid(), 'zip' if atype == 'zip' else 'tar.bz2'))
     try:
         with contextlib.redirect_stdout(io.StringIO()):
+            # "existing files will be overwritten": the path already holds an archive of another format pair
+            bundle.create_bundle(arch, 'json' if fmt != 'json' else 'nwchem', 'bib' if reffmt != 'bib' else 'txt', atype, d)
             bundle.create_bundle(arch, fmt, reffmt, atype, d)
     except Exception as e:
         out['bad'].append(('bundle_raises', 'create_bundle raises %s: %s' % (type(e).__name__, str(e)[:80]), None))
@@ -153,7 +161,8 @@ def run(ctx):
     ndirs = ctx.n(2, 12)
     fmts_all = sorted(writers.get_writer_formats())
     for i in range(ndirs):
-        must = rng.sample(with_notes, 3) + rng.sample(multi, 3) + ['4-31g', 'sto-3g'] + rng.sample(ecp5, min(2, len(ecp5)))
+        aliased = [k for k, e in sorted(md.items()) if e['other_names']]
+        must = rng.sample(with_notes, 3) + rng.sample(multi, 3) + ['4-31g', 'sto-3g'] + rng.sample(ecp5, min(2, len(ecp5))) + rng.sample(aliased, min(2, len(aliased)))
         d, idx = make_dir(bse, rng, tmp, ctx.n(8, 16), must)
         pairs = [('nwchem', 'txt'), ('crystal', 'bib'), ('veloxchem', 'ris'), ('json', 'json')]
         pairs += [(rng.choice(fmts_all), rng.choice(['txt', 'bib', 'ris', 'endnote', 'json'])) for _ in range(ctx.n(2, 10))]
